@@ -322,12 +322,16 @@ def dist(
         return dist(p.project(q), q)
     if isinstance(p, PointTensor) and isinstance(q, SubspaceTensor):
         return dist(q.project(p), p)
-    if isinstance(p, SubspaceTensor) and isinstance(q, PlaneTensor):
+    if isinstance(p, LineTensor) and isinstance(q, PlaneTensor):
         return dist(q, p)
     if isinstance(p, PlaneTensor) and isinstance(q, LineTensor):
         return dist(p, q.base_point)
     if isinstance(p, PlaneTensor) and isinstance(q, SubspaceTensor):
-        return dist(p, PointCollection.from_array(q.basis_matrix[0, :]))
+        # measure from a finite point of q (rows of the basis matrix can be points at infinity)
+        basis = q.basis_matrix
+        i = np.argmax(np.abs(basis[..., -1]), axis=-1)
+        point = np.take_along_axis(basis, i[..., None, None], axis=-2)[..., 0, :]
+        return dist(p, PointCollection.from_array(point))
 
     from geometer.shapes import PolygonTensor, Polyhedron, SegmentTensor
 
